@@ -75,11 +75,25 @@ FilesViol(ff, e) ==
             \cup Exp(e.h, HashDiffers(sn.fs, ff.fs), "hash")
     [] OTHER -> {}
 
+\* ---- C15 -----------------------------------------------------------------------------------------------------------
+\* identity of a key is (concrete type, value): uu.keys[i] = <<ty, v>> as declared by the harness
+KeyViol(uu, e) ==
+  CASE e.ev = "keycmp" ->
+         LET same == uu.keys[e.a] = uu.keys[e.b] IN
+         V(e.eq = same /\ e.eq_box = same, <<"C15", "key_equality_is_type_and_value">>)
+         \cup V(~same \/ e.hash_eq, <<"C15", "equal_keys_hash_equally">>)
+    [] e.ev = "keymap" ->
+         LET first == CHOOSE j \in DOMAIN uu.keys : uu.keys[j] = uu.keys[e.a] /\ \A k \in DOMAIN uu.keys : uu.keys[k] = uu.keys[e.a] => j <= k
+         IN V(e.found = first, <<"C15", "hash_map_lookup_by_trait_object">>)
+            \cup V(e.size = Cardinality({uu.keys[j] : j \in DOMAIN uu.keys}), <<"C15", "hash_map_lookup_by_trait_object">>)
+    [] OTHER -> {}
+
 \* ---- C14 -----------------------------------------------------------------------------------------------------------
 \* u.slots is advanced by the model from the operation arguments; the implementation's result (rendered in TLA+ value
 \* syntax by the harness) must be the model's result
 UnitStep(uu, e) ==
-  CASE e.ev = "reset" -> [suite |-> e.suite, slots |-> SlotInit, files |-> FilesInit]
+  CASE e.ev = "reset" -> [suite |-> e.suite, slots |-> SlotInit, files |-> FilesInit, keys |-> <<>>]
+    [] e.ev = "keydef" -> [uu EXCEPT !.keys = (e.i :> <<e.ty, e.v>>) @@ @]
     [] e.ev \in {"fs", "stamps", "fcheck"} -> [uu EXCEPT !.files = FilesStep(uu.files, e)]
     [] e.ev = "typed" -> [uu EXCEPT !.slots = TypedOp(uu.slots, e).slots]
     [] e.ev = "mapop" -> [uu EXCEPT !.slots = MapOp(uu.slots, e).slots]
@@ -91,9 +105,10 @@ StepViol(uu, e) ==
     [] e.ev = "typed" -> V(e.res = ToString(TypedOp(uu.slots, e).res), <<"C14", "typed_state_" \o e.op>>)
     [] e.ev = "mapop" -> V(e.res = ToString(MapOp(uu.slots, e).res), <<"C14", "map_" \o e.op>>)
     [] e.ev \in {"fs", "stamps", "fcheck"} -> FilesViol(uu.files, e)
+    [] e.ev \in {"keycmp", "keymap"} -> KeyViol(uu, e)
     [] OTHER -> {}
 
-Init == l = 1 /\ u = [suite |-> "", slots |-> SlotInit, files |-> FilesInit] /\ viol = {} /\ cnt = 0 /\ x = 0
+Init == l = 1 /\ u = [suite |-> "", slots |-> SlotInit, files |-> FilesInit, keys |-> <<>>] /\ viol = {} /\ cnt = 0 /\ x = 0
 
 Finish(v2, c2) == JsonSerialize(IOEnv.OUT, [events |-> Len(Rec), viol |-> v2, evaluations |-> c2])
 
@@ -112,6 +127,6 @@ Spec == Init /\ [][Next]_vars
 Accepted == TLCGet("stats").diameter = Len(Rec) + 1
 
 \* design-level: the models themselves (no trace needed)
-ModelInit == l = 0 /\ u = [suite |-> "", slots |-> SlotInit, files |-> FilesInit] /\ viol = {} /\ cnt = 0 /\ x = 0
+ModelInit == l = 0 /\ u = [suite |-> "", slots |-> SlotInit, files |-> FilesInit, keys |-> <<>>] /\ viol = {} /\ cnt = 0 /\ x = 0
 ModelSpec == ModelInit /\ [][UNCHANGED vars]_vars
 =============================================================================
